@@ -100,6 +100,32 @@ pub fn run(ctx: &mut Ctx) {
         }
     }
     ctx.sample("client_new with B = 3v mod N (forces S = 0) and verify_server_proof(00..00 / ff..ff / random); into_server with stored verifier 0 and A = N+1".to_string());
+    // ---------------- world login: the client seed and proof are the PEER's values, and the peer has seen the server's
+    //                  seed before it answers: echoes and near-echoes of it, extremes, and proofs of every kind ----------------
+    {
+        let n = if ctx.quick() { 120 } else { 20_000 };
+        for k in 0..n {
+            let key: [u8; 40] = match k % 4 { 0 => [0; 40], 1 => [0xff; 40], _ => rng.arr() };
+            let un = ns(if k % 3 == 0 { "A" } else { "SIXTEENBYTESNAME" });
+            let proofs: [[u8; 20]; 3] = [[0; 20], [0xff; 20], rng.arr()];
+            for module in 0..3u8 {
+                for class in 0..6u8 {
+                    let pf = proofs[(k + class as usize) % 3];
+                    let r = catch(|| {
+                        macro_rules! go { ($m:ident) => {{ let s = wow_srp::$m::ProofSeed::new(); let ss = s.seed();
+                            let cs = match class { 0 => ss, 1 => ss.wrapping_add(1), 2 => !ss, 3 => 0, 4 => u32::MAX, _ => ss.swap_bytes() };
+                            (ss, cs, s.into_server_header_crypto(&un, key, pf, cs).is_ok()) }} }
+                        match module { 0 => go!(vanilla_header), 1 => go!(tbc_header), _ => go!(wrath_header) }
+                    });
+                    ctx.oracle_runs += 1;
+                    if r.is_none() {
+                        ctx.fail("server_panic", format!("{{\"fn\":\"ProofSeed::into_server_header_crypto\",\"module\":{},\"client_seed_class\":\"{}\",\"proof\":\"{}\",\"key\":\"{}\"}}", module,
+                            ["the server's own seed echoed", "server seed + 1", "complement of the server seed", "0", "0xFFFFFFFF", "server seed byte-swapped"][class as usize], hex(&pf), hex(&key)));
+                    }
+                }
+            }
+        }
+    }
     // ---------------- world login + header byte storms, all three expansions ----------------
     let storms = if ctx.quick() { 300 } else { 100_000 };
     for k in 0..storms {
